@@ -4,6 +4,8 @@
 package c10
 
 import (
+	"strings"
+
 	"github.com/ryogrid/SamehadaDB/lib/storage/index/index_constants"
 	"github.com/ryogrid/SamehadaDB/lib/types"
 	"github.com/ryogrid/SamehadaDB/lib/zzvf/sysx"
@@ -58,7 +60,7 @@ func audit(r *sysx.Real, all []*tbl, when string) {
 		for c := range t.cols {
 			col := tm.Schema().GetColumn(uint32(c))
 			vf.Assert(col.GetType() == t.cols[c].Type, when+": column keeps its type")
-			vf.Assert(col.GetColumnName() == t.name+"."+t.cols[c].Name, when+": column keeps its name")
+			vf.Assert(col.GetColumnName() == strings.ToLower(t.name)+"."+t.cols[c].Name, when+": column keeps its name")
 		}
 		vf.Assert(r.Cat.GetTableByOID(t.oid) == tm, when+": object id resolves to the same table")
 		rows, sc, ab := r.SelectAll(t.name)
@@ -77,8 +79,10 @@ func scenario(crash bool) {
 	r := sysx.OpenReal("vfc10", 200)
 	var all []*tbl
 	n := 1 + vf.Choose(2)
+	// table names are case-insensitive: either all lower case or written with capitals
+	names := [][]string{{"ta", "tb", "tc"}, {"Ta", "tB", "TC"}}[vf.Choose(2)]
 	for i := 0; i < n; i++ {
-		all = append(all, create(r, []string{"ta", "tb"}[i], vf.Choose(3)))
+		all = append(all, create(r, names[i], vf.Choose(3)))
 	}
 	audit(r, all, "before restart")
 	restart := func() {
@@ -91,7 +95,7 @@ func scenario(crash bool) {
 	}
 	restart()
 	audit(r, all, "after restart")
-	all = append(all, create(r, "tc", vf.Choose(3)))
+	all = append(all, create(r, names[2], vf.Choose(3)))
 	audit(r, all, "after create following restart")
 	restart()
 	audit(r, all, "after second restart")
